@@ -241,7 +241,8 @@ class MatrixDFTExecutor:
         if not isinstance(shift, Iterable):
             shift = (shift, shift)
 
-        return (Q, samples_in, samples_out, shift, fwd)
+        # the bases are built at the configured precision: it is part of what the cached entry depends on
+        return (Q, samples_in, samples_out, shift, fwd, config.precision)
 
     def dft2(self, ary, Q, samples_out, shift=(0, 0)):
         """Compute the two dimensional Discrete Fourier Transform of a matrix.
@@ -361,7 +362,7 @@ class MatrixDFTExecutor:
         """Set up the basis matricies for given sampling parameters."""
         # broadcast sampling and shifts
 
-        Q, shp, samples, shift, fwd = key
+        Q, shp, samples, shift, fwd, _precision = key
 
         Qn, Qm = Q
         # conversion here to Soummer's notation
